@@ -176,12 +176,14 @@ class Run(object):
             hd = hsdir_name(dnum)
             if kind == 'U':
                 sim.event('HS_DESC UPLOAD %s UNKNOWN %s descid%d%s' % (sid, hd, dnum, x))
+            elif kind == 'FF':
+                sim.event('HS_DESC FAILED %s NO_AUTH %s REASON=NOT_FOUND' % (sid, hd))
             elif kind == 'OK':
                 sim.event('HS_DESC UPLOADED %s UNKNOWN %s' % (sid, hd))
             else:
                 sim.event('HS_DESC FAILED %s UNKNOWN %s descid%d%s REASON=UPLOAD_REJECTED' % (sid, hd, dnum, x))
             sim.pump()
-            if x == 'S':
+            if x == 'S' and kind != 'FF':
                 if not self.reply:
                     self.pre_reply_S_events = True
                 if kind == 'U':
@@ -289,7 +291,7 @@ def retry_for(kind, tier):
         return () if tier == 'quick' else ('S',)
     if tier == 'quick':
         return ('S',) if kind == 'ephemeral' else ()
-    return ('S', 'F')
+    return ('S',)
 
 
 def enabled(history, ndirs, retry=()):
@@ -305,6 +307,8 @@ def enabled(history, ndirs, retry=()):
             dead = True
         else:
             k, x, d = ev
+            if k == 'FF':
+                continue
             status[(x, d)] = {'U': 'started', 'OK': 'done', 'FAIL': 'failed'}[k]
             if k == 'U':
                 tries[(x, d)] = tries.get((x, d), 0) + 1
@@ -320,6 +324,9 @@ def enabled(history, ndirs, retry=()):
             st = status.get((x, d))
             if st is None:
                 out.append(('U', x, d))
+                if x == 'S' and d == ndirs and reply and not any(e[0] == 'FF' for e in history):
+                    # a FAILED that is no upload failure: our own Tor failed to FETCH this service's descriptor from d
+                    out.append(('FF', x, d))
             elif st == 'started':
                 out.append(('OK', x, d))
                 out.append(('FAIL', x, d))
@@ -416,6 +423,8 @@ def tasks(tier, seed):
     for kind in KINDS:
         for await_all in (False, True):
             nd = 2 if tier == 'quick' or kind.endswith('-auth') else 3
+            if tier == 'thorough' and kind == 'filesystem':
+                nd = 2           # (3 shared directories with retries: the ephemeral kind only - hours otherwise)
             first = enabled((), nd)
             for ev in first:
                 if tier == 'quick' and kind.endswith('-auth') and len(ev) == 3 and ev[1] == 'F' and ev[2] != 1:
